@@ -17,11 +17,33 @@ def run(chk, tier):
         cfgs = [("c++17", "clang++"), ("c++11", "clang++"), ("c++20", "clang++"), ("c++17", "g++"), ("c++11", "g++"), ("c++23", "g++")]
     n_neg = n_conv = n_cast = 0
     for name in names:
+        try:
+            schemas.schema_facts(ss[name])      # the positive witness TU (harness) must type-check before anything else
+        except AnalysisBroken as e:
+            errs = [l for l in str(e).splitlines() if "error:" in l]
+            if not errs:
+                raise
+            chk.violation("W-POS", "harness:%s" % name, ss[name].xml,
+                          "the positive witness TU of %s (all read-only members with const bytes; getters with const cursors on "
+                          "mutable views) does not compile: %s" % (name, "; ".join(x.strip()[-220:] for x in errs[:2])))
+            continue
         for std, comp in cfgs:
             if comp == "g++" and name not in ("vlayout", "vheaders", "test_schema"):
                 continue
             n_neg += witness.check_c11_schema(chk, ss[name], root, std, comp)
-        lib = e4.lib_of(ss[name])
+        try:
+            lib = e4.lib_of(ss[name])
+        except AnalysisBroken as e:
+            # the harness TU is the positive witness: every non-mutating member of every view with const bytes, and every
+            # getter through const cursors on mutable views, must type-check.  A compiler error in it (not a tool failure)
+            # means a read-only use the library documents no longer compiles
+            errs = [l for l in str(e).splitlines() if "error:" in l]
+            if not errs:
+                raise
+            chk.violation("W-POS", "harness:%s" % name, ss[name].xml,
+                          "the positive witness TU of %s (all read-only members with const bytes; getters with const cursors on "
+                          "mutable views) does not compile: %s" % (name, "; ".join(x.strip()[-200:] for x in errs[:2])))
+            continue
         n_conv += witness.check_c11_conversions(chk, ss[name], root, lib)
         n_cast += witness.check_no_const_removal(chk, lib, root)
     n_cv = 0
